@@ -1,4 +1,4 @@
-from .checks import deps, pipeline, version, selfhost, container, compilecheck, imports, pattern
+from .checks import deps, pipeline, version, selfhost, container, compilecheck, imports, pattern, grammar
 
 CHECKS = {
     "C01": lambda tier: compilecheck.run("C01", tier),
@@ -10,6 +10,7 @@ CHECKS = {
     "C06": lambda tier: deps.run_property("C06", tier),
     "C07": lambda tier: deps.run_property("C07", tier),
     "C10": lambda tier: pipeline.run_c10(tier),
+    "C11": lambda tier: grammar.run_c11(tier),
     "C13": lambda tier: container.run_c13(tier),
     "C14": lambda tier: imports.run_c14(tier),
     "C15": lambda tier: container.run_c15(tier),
